@@ -12,7 +12,17 @@ def classify(label, element, mode, annotation, attribute):
     except Exception:
         return None
     for n in nodes:
-        if isinstance(n, AllOf) and n.elements and n.elements[0].annotation != n.annotation:
+        if not (isinstance(n, AllOf) and n.elements):
+            continue
+        members = [e.annotation for e in n.elements]
+        first = members[0]
+        # the documented rule of the pinned tree: the first explicit member annotation, else the first that is not Any
+        explicit = [a for a in members if a != "Any" and not a.startswith("Union")]
+        non_any = [a for a in members if a != "Any"]
+        documented = (explicit or non_any or ["Any"])[0]
+        # the recorded finding is exactly: the first member (whose result allOf returns) announces nothing explicit, and
+        # the composition announces, by that rule, a LATER member's annotation.  Anything else is a different fault.
+        if n.annotation == documented and documented != first and (first == "Any" or first.startswith("Union")):
             return "allof-annotation-vs-first-member"
     return None
 
